@@ -751,6 +751,14 @@ package calendar
 //@   use midxRange(lunar.solar.year, sjdn(lunar.solar))
 //@   use monthLocateBack(lunar.solar.year, midx(lunar.solar.year, sjdn(lunar.solar)))
 
+//@ # the thirteen hour objects of a day (00:00 and the odd hours 01:00 .. 23:00): same narrower range as GetTime
+//@ func (lunar *Lunar) GetTimes() []*LunarTime [C08]
+//@   requires 2 <= lunar.year && lunar.year <= 9997 && 3 <= lunar.solar.year && lunar.solar.year <= 9996 && lunar.solar.year != 18
+//@   use tableAx(lunar.solar.year)
+//@   use midxRange(lunar.solar.year, sjdn(lunar.solar))
+//@   use monthLocateBack(lunar.solar.year, midx(lunar.solar.year, sjdn(lunar.solar)))
+//@   ensures len(result) == 13
+
 //@ sweep Solar: 1 <= self.year && self.year <= 9998 [C08]
 //@ sweep SolarWeek: weekOK(self) && jdnInRange(jdn(self.year, self.month, self.day)-6) && jdnInRange(jdn(self.year, self.month, self.day)+6) [C08]
 //@ sweep SolarMonth: inYears(self.year) && 1 <= self.month && self.month <= 12 [C08]
